@@ -35,9 +35,9 @@ const (
 
 // guarded is one buffer of 729 words inside an mmap'ed region with PROT_NONE guards on both sides.
 type guarded struct {
-	mem  []byte
-	off  int
-	arr  *[stateWords]uint
+	mem []byte
+	off int
+	arr *[stateWords]uint
 }
 
 func newGuarded(flushEnd bool) (*guarded, error) {
@@ -101,12 +101,12 @@ type stateCase struct {
 	Seed uint64 `json:"seed"`
 	Mode int    `json:"mode"`
 	// for "valid": lanes >= Holes get no (0,0); positions listed in Holes are forced to the undefined pair in lane HoleLane
-	Holes    []int `json:"holes,omitempty"`
-	HoleLane int   `json:"hole_lane,omitempty"`
+	Holes    []int    `json:"holes,omitempty"`
+	HoleLane int      `json:"hole_lane,omitempty"`
 	L        []uint64 `json:"l,omitempty"`
 	H        []uint64 `json:"h,omitempty"`
-	Place    int   `json:"place"`     // guard placement 0/1
-	FlipLane int   `json:"flip_lane"` // lane whose input is changed for the independence check
+	Place    int      `json:"place"`     // guard placement 0/1
+	FlipLane int      `json:"flip_lane"` // lane whose input is changed for the independence check
 }
 
 func (c stateCase) build() (l, hh [stateWords]uint, lanes [][]int8, err error) {
